@@ -308,11 +308,26 @@ def r4_move_conversion(repo=None):
     return r
 
 
+def _is_window_cmp(n):
+    return isinstance(n, ast.Compare) and not isinstance(n.ops[0], (ast.Is, ast.IsNot)) and any(
+        b in norm(ast.unparse(n)) for b in ("self.starttime", "self.endtime"))
+
+
+def _window_subject(m):
+    """(qualified name, flat view) of the handler method that compares the name time with the window bounds: dispatch itself
+    (private helpers inlined) or, when the comparison lives in a helper that is not inlined, that helper"""
+    cands = [H + ".dispatch"] + sorted(H + "." + n for n in m.methods(H) if n.startswith("_") and not n.startswith("__"))
+    for q in cands:
+        view = m.flat(q)
+        if any(_is_window_cmp(n) for n in ast.walk(view.fn())):
+            return q, view
+    return H + ".dispatch", m.flat(H + ".dispatch")
+
+
 def r5_inclusive_window(repo=None):
     r = Rule("C15.R5", "the time window is inclusive on the name timestamp; every regex group used exists or is guarded")
     m = pyfront.mod("watchdog_drf", repo)
-    q = H + ".dispatch"
-    fvw = m.flat(q)
+    q, fvw = _window_subject(m)
     f = fvw.fn()
     g = fvw.cfg()
     # the time variable: assigned from datetime.timedelta(seconds=<secs>, milliseconds=<frac>)
@@ -453,9 +468,75 @@ def r5_inclusive_window(repo=None):
     return r
 
 
+def r6_window_per_path(repo=None):
+    """'accepts an event for a path exactly when a listing ... would list a finalized file at that path': for a move event the
+    window belongs to each path separately - a rename from inside the window to outside it is a deletion, the reverse a creation.
+    So the window verdict must enter the *per-path* match flags (the two locals the move conversion branches on), not be applied
+    once to the event afterwards.  (a) If the window comparisons are in dispatch itself (helpers inlined): no path from the failing
+    side of a comparison reaches a `return` of dispatch without first assigning one of the two flags.  (b) If they live in a
+    helper: the value assigned to the source flag and the value assigned to the destination flag each contain a call that reaches
+    that helper."""
+    r = Rule("C15.R6", "the time window is applied to the source and to the destination path of a move separately")
+    m = pyfront.mod("watchdog_drf", repo)
+    q = H + ".dispatch"
+    fvw = m.flat(q)
+    f = fvw.fn()
+    g = fvw.cfg()
+    S, D, track = _dispatch_flags(fvw, f)
+    if not S or not D or S == D:
+        raise AnalysisError("%s: the source-matched / destination-matched flags were not recognised (%s, %s)" % (q, S, D))
+    wq, wview = _window_subject(m)
+    if wq == q:
+        wcmp = [n for n in g.nodes if n.kind == "cond" and _is_window_cmp(n.ast)]
+        if not wcmp:
+            raise AnalysisError("%s: no comparison with the window bounds found" % q)
+        flag_nodes = [n.id for n in g.nodes if isinstance(n.ast, ast.Assign) and any(
+            isinstance(t, ast.Name) and t.id in (S, D) for t in n.ast.targets)]
+        rets = [n for n in g.nodes if n.kind == "return"]
+        for n in wcmp:
+            ts = [b for b, lab in g.succ[n.id] if lab == "T"]
+            reach = g.reach(ts, avoid=flag_nodes, skip_labels=("exc",))
+            hit = [x for x in rets if x.id in reach]
+            if hit:
+                r.violation(m.rel, q, "`%s` -> return" % n.label[:60],
+                            "the window is applied once per event, to the match of whichever path matched last, and a failing test drops "
+                            "the whole event: a move whose two names both fit the grammar but only one of which lies in the window "
+                            "(rf@T0 -> rf@T0+10 with endtime T0+5) delivers nothing where a deletion is due, and a `moved` event where "
+                            "a creation is due; the same for a properties file renamed to or from an out-of-window data file",
+                            line=n.line)
+                break
+        else:
+            r.ok("%s:%s %s" % (m.rel, wcmp[0].line, q), "a failing window test only clears the flag of the path it was made for")
+    else:
+        # call graph over the handler's methods
+        calls = {}
+        for name, fn in m.methods(H).items():
+            calls[name] = {pyfront.call_name(c)[5:] for c in ast.walk(fn) if isinstance(c, ast.Call) and (pyfront.call_name(c) or "").startswith("self.")}
+        target = wq.split(".")[-1]
+
+        def reaches(name, seen=()):
+            if name == target:
+                return True
+            return any(reaches(c, seen + (name,)) for c in calls.get(name, ()) if c not in seen)
+        for flag, what in ((S, "source"), (D, "destination")):
+            raw = m.fn(q)       # as written: the helper calls are still calls
+            asg = [n for n in ast.walk(raw) if isinstance(n, ast.Assign) and any(isinstance(t, ast.Name) and t.id == flag for t in n.targets)
+                   and not isinstance(n.value, ast.Constant)]
+            ok = asg and all(any(isinstance(c, ast.Call) and (pyfront.call_name(c) or "").startswith("self.") and reaches(pyfront.call_name(c)[5:])
+                                 for c in ast.walk(a.value)) for a in asg)
+            if ok:
+                r.ok("%s:%s %s `%s`" % (m.rel, asg[0].lineno, q, norm(ast.unparse(asg[0]))[:70]),
+                     "the %s flag includes the window verdict for that path (through %s)" % (what, wq))
+            else:
+                r.violation(m.rel, q, "flag `%s`" % flag, "the %s-matched flag is set without the time window of that path (the window test "
+                            "lives in %s, which this assignment does not reach)" % (what, wq), line=f.lineno)
+    r.guard(1)
+    return r
+
+
 def rules(repo=None):
     return [lambda: r1_same_constants(repo), lambda: r2_tables_agree(repo), lambda: r3_no_tmp_no_dirs(repo),
-            lambda: r4_move_conversion(repo), lambda: r5_inclusive_window(repo)]
+            lambda: r4_move_conversion(repo), lambda: r5_inclusive_window(repo), lambda: r6_window_per_path(repo)]
 
 
 EXPLANATION = (
